@@ -24,6 +24,7 @@ RULES = {
     'R17': ('r17_tables', 'TABLE: decision tables of small pure functions equal the reference tables'),
     'R15': ('r15_loaders', 'LOADERS: every input element reaches the model; entry points one tuple per asset'),
     'R16': ('r16_txn', 'TXN: neo4j ingestion: node per element, mirrored relationships, commit'),
+    'R18': ('r18_sym', 'SYM: both orientations of an association treated alike and explicitly'),
     'R22': ('r22_memo', 'MEMO: a memo cache is keyed by everything the value depends on'),
     'R8': ('r08_codec', 'CODEC: writer and reader tables of the dict codecs agree'),
 }
@@ -130,7 +131,7 @@ def _p(pid, title, rules, decided, undecided, anchors=(), floor=1, extra_assumpt
 
 
 _p('C01', 'Attack-graph edges are exactly the MAL meaning of the step expressions',
-   ['R1', 'R2', 'R12', 'R8', 'R14', 'R19', 'R22'],
+   ['R1', 'R2', 'R12', 'R8', 'R14', 'R19', 'R22', 'R18'],
    decided=['R1: the evaluator never removes from a list it iterates (set operators, sub-type '
             'filter, recursion through callee summaries)',
             'R2: every child link created by generation is mirrored by the converse parent link on '
@@ -141,7 +142,10 @@ _p('C01', 'Attack-graph edges are exactly the MAL meaning of the step expression
             'R19/T9: per opcode the data flow of the evaluator (same targets for both set operands; union / '
             'intersection / difference built from genuine membership tests; collect feeds lhs targets into rhs; '
             'field navigates from every target; subType receiver/argument; variable lookup key)',
-            'R8vii: the child lookup name is built with the same template as the full-name index key'],
+            'R8vii: the child lookup name is built with the same template as the full-name index key',
+            'R18: field navigation (model and language graph) tests each orientation on its own: field on one '
+            'side and source on the other side; nothing is inferred through an else',
+            'R22: the variable lookup is not memoised under a key that ignores the asset type'],
    undecided=['that the evaluator implements MAL set semantics for every nesting',
               'variable resolution by the first target type', 'transitive start-asset convention'],
    anchors=[('R1', '_process_step_expression'), ('R2', 'AttackGraph._generate_graph'),
@@ -149,7 +153,7 @@ _p('C01', 'Attack-graph edges are exactly the MAL meaning of the step expression
             ('R14', '_process_step_expression'), ('R19', '_process_step_expression')], floor=30)
 
 _p('C02', 'One node per asset x step, with attributes faithful to model and language',
-   ['R3', 'R4', 'R12', 'R8'],
+   ['R3', 'R4', 'R12', 'R8', 'R17'],
    decided=['R3: every node entering the node list is registered in both lookup indexes and '
             'advances the id counter (and symmetrically on removal)',
             'R4: add_node honours an explicit id by an is-None test, its duplicate test checks the '
@@ -160,13 +164,17 @@ _p('C02', 'One node per asset x step, with attributes faithful to model and lang
    anchors=[('R3', 'AttackGraph.add_node'), ('R4', 'AttackGraph.add_node'), ('R4', 'Model.add_asset')])
 
 _p('C03', 'Step inheritance resolves override/extend correctly and the lookup is pure',
-   ['R6', 'R3', 'R22'],
+   ['R6', 'R3', 'R22', 'R17'],
    decided=['R6: no in-place mutation anywhere in the package has a receiver that may be owned by the '
             'loaded specification (whole-package points-to; deepcopy results tracked per key), so '
             'lookups, language-graph and attack-graph generation leave the specification unmodified '
             'and cannot make one type see another type\'s expressions through shared lists',
-            'R3: LanguageGraph.regenerate_graph re-initialises what __init__ initialises'],
-   undecided=['that the fold itself implements override/extend/absent correctly (table T10, not built)',
+            'R3: LanguageGraph.regenerate_graph re-initialises what __init__ initialises',
+            'R17 T10: the fold equals the reference table: ancestors first; absent -> own declaration; no reaches '
+            '-> untouched; -> replaces the whole entry (type, TTC, tags, meta, reaches); +> appends own '
+            'expressions after the inherited ones',
+            'R22: no lookup memo is keyed by less than it depends on'],
+   undecided=[
               'equality of results across call orders beyond what purity implies'],
    anchors=[('R6', 'LanguageGraph._get_attacks_for_asset_type'),
             ('R3', 'LanguageGraph.regenerate_graph')], floor=5)
@@ -184,8 +192,10 @@ _p('C04', 'The MAL compiler\'s output is the language the source text denotes',
             ('R13', 'malVisitor.visitAssociation')], floor=40)
 
 _p('C05', 'The instance model stays coherent under any history of edits',
-   ['R1', 'R2', 'R3', 'R4', 'R5'],
+   ['R1', 'R2', 'R3', 'R4', 'R5', 'R18'],
    decided=['R1: no Model mutator removes from a list it walks',
+            'R18: neighbours through a field: both orientations tested explicitly (self-links included)',
+            "R5': remove_asset calls the raising remove_asset_from_association once per DISTINCT association",
             'R4: explicit asset/attacker ids (0 included) are honoured, the id guard tests the stored '
             'id, recorded names are unique',
             'R5: no explicit raise is reachable after a write to model state in any Model mutator',
@@ -331,12 +341,15 @@ _p('C17', 'Malformed MAL source is rejected, never half-compiled',
    anchors=[('R9', 'MalCompiler.compile')], floor=2)
 
 _p('C15', 'Language graph mirrors the language and over-approximates every attack graph',
-   ['R2', 'R3', 'R9', 'R12'],
+   ['R2', 'R3', 'R9', 'R12', 'R18', 'R22'],
    decided=['R2: super_assets/sub_assets and step children/parents are created pairwise (P3, P4)',
             'R9b: lookups of super asset, association ends, sub-type, target asset and target step are '
             'each followed by a test whose failing branch raises',
             'R12: process_step_expression, reverse_dep_chain and DependencyChain.to_dict have a case for '
             'every opcode / dependency kind that can be produced',
+            'R18: association lookup by fields/assets and field typing of step expressions treat both orientations '
+            'alike, each test constrains the field on one side AND the source type on the other; the '
+            'already-created lookup identifies an association by name and both end assets',
             'R3: LanguageGraph.regenerate_graph re-initialises what __init__ initialises'],
    undecided=['the over-approximation clause (relates two evaluators)',
               'static typing of step expressions'],
